@@ -534,3 +534,48 @@ Qed.
 Lemma list_snoc_split : forall (A : Type) (l : list A) d, l <> [] ->
   l = removelast l ++ [last l d].
 Proof. intros. now apply app_removelast_last. Qed.
+
+(* ---------------------------------------------------------------------------------------- *)
+(* "chunk-shaped" lists: all chunks have n bytes except possibly the last (1..n bytes) *)
+
+Inductive chunked (n : nat) : list bytes -> Prop :=
+| chunked_nil : chunked n []
+| chunked_last : forall c, 0 < length c <= n -> chunked n [c]
+| chunked_cons : forall c cs, length c = n -> chunked n cs -> chunked n (c :: cs).
+
+Lemma chunked_chunks : forall n l, 0 < n -> chunked n (chunks n l).
+Proof.
+  intros n l Hn. induction l using (chunk_ind n Hn); [constructor|].
+  rewrite chunks_cons by assumption.
+  destruct (Nat.le_gt_cases n (length l)) as [L|L].
+  - apply chunked_cons; [|assumption]. rewrite firstn_length. lia.
+  - rewrite skipn_all2 by lia. rewrite chunks_nil. apply chunked_last.
+    rewrite firstn_length. apply nonnil_length in H. lia.
+Qed.
+
+Lemma chunks_of_chunked : forall n cs, 0 < n -> chunked n cs -> chunks n (concat cs) = cs.
+Proof.
+  intros n cs Hn H. induction H as [|c Hc|c cs Hc Hcs IH].
+  - reflexivity.
+  - cbn [concat]. rewrite app_nil_r. apply chunks_short; [assumption| |lia].
+    apply nonnil_length. lia.
+  - cbn [concat]. rewrite chunks_cons; [|assumption|].
+    + rewrite firstn_app_exact, skipn_app_exact by congruence. now rewrite IH.
+    + apply nonnil_length. rewrite app_length. lia.
+Qed.
+
+Lemma chunked_Forall_le : forall n cs, chunked n cs -> Forall (fun c => length c <= n) cs.
+Proof.
+  induction 1; constructor; try lia; auto.
+Qed.
+
+(* a list with the same chunk lengths is chunk-shaped too *)
+Lemma chunked_same_lengths : forall n cs cs', chunked n cs ->
+  map (@length N) cs' = map (@length N) cs -> chunked n cs'.
+Proof.
+  intros n cs cs' H. revert cs'. induction H as [|c Hc|c cs Hc Hcs IH]; intros cs' E.
+  - destruct cs'; [constructor|discriminate].
+  - destruct cs' as [|c' [|? ?]]; try discriminate. injection E as E. apply chunked_last. lia.
+  - destruct cs' as [|c' cs']; [discriminate|]. injection E as E1 E2.
+    apply chunked_cons; [lia|auto].
+Qed.
